@@ -10,7 +10,7 @@ def run(ctx):
         "(Check_Chain.V18) decides that the good chromosomes are tagged as C06 demands, nothing is written for the skipped ones, and "
         "tags and files equal the reference run; non-trivial = every case (>=1 defective chromosome)"
     )
-    cfgs = ["BubbleChain_d.cfg"] if not ctx.thorough else ["BubbleChain_d.cfg", "BubbleChain_d3.cfg"]
+    cfgs = ["BubbleChain_d.cfg", "BubbleChain_dw.cfg"] if not ctx.thorough else ["BubbleChain_d.cfg", "BubbleChain_d3.cfg", "BubbleChain_dw.cfg"]
     # design check: the per-chromosome loop as a machine (OrderChrom / SkipChrom) satisfies C06 and C18 on every generated graph and order
     r = ctx.tlc("OrderRun", "OrderRun_q.cfg", coverage=False)
     if not r.ok:
